@@ -1,3 +1,59 @@
-(* C07 -- theorems are added below as they are proved (see design-notes/C07.md). *)
+(* C07 -- Rejected and merely built events leave no trace.
+   Statements only; proofs in proofs/AbftProcess.v AbftBuild.v AbftFrame.v (AbftOld.v: refutation of the
+   pinned sampler). *)
 From Coq Require Import NArith List.
-From LV Require Import model.Abft model.AbftRun spec.AbftSpec.
+From LV Require Import model.VecIndex model.Abft model.AbftRun
+  proofs.AbftFrame proofs.AbftBuild proofs.AbftProcess proofs.AbftTransparent proofs.AbftWitness proofs.AbftOld.
+Import ListNotations.
+Local Open Scope N_scope.
+
+(* A Build -- whatever it returns, with any sampler -- changes the forkless-cause cache and the build
+   counter and nothing else: epoch state, decided frame, roots, confirmed marks, vector index and election
+   are those of the instance that never saw the event. *)
+Theorem C07_build_leaves_no_trace : forall cap smp es st e,
+  exists c', snd (build_with cap smp es st e) = set_fcc (set_ctr st (l_ctr st + 1)) c'.
+Proof. exact build_with_shape. Qed.
+
+(* A Process that ends with ErrWrongFrame emits no block and changes the forkless-cause cache only. *)
+Theorem C07_rejected_process_leaves_no_trace : forall cap end_block es st e r bl st',
+  process cap end_block es st e = (r, bl, st') -> r = Err EWrongFrame -> bl = [] /\ exists c', st' = set_fcc st c'.
+Proof. exact process_early_exit. Qed.
+
+(* What is left behind is harmless: the next frame computation for an event whose cached answers are
+   coherent ignores the cache ... *)
+Theorem C07_frame_check_ignores_cache : forall cap es st e co, cache_ok (a_id e) st ->
+  exists c', calc_frame cap es st e co = (frame_pure es (l_vals st) (l_idx st) (l_roots st) e co, set_fcc st c') /\
+             cache_ok (a_id e) (set_fcc st c').
+Proof. exact calc_frame_pure. Qed.
+
+(* ... and later Builds assign the frames of the clean instance whatever was built in between (the
+   repaired sampler never reuses a temporary id; [real] = ids of processed events) *)
+Theorem C07_later_builds_unaffected : forall cap (real : N -> Prop) bound,
+  (forall a, real a -> ~ is_temp bound a) ->
+  forall es st hist e, keys_inv real st -> l_ctr st + N.of_nat (length hist) + 1 <= bound ->
+  fst (build cap es (builds cap es st hist) e) =
+  build_pure es (l_vals st) (l_idx st) (l_roots st) (l_epoch st) (l_ctr st + N.of_nat (length hist) + 1) e.
+Proof. exact build_any_history. Qed.
+
+(* ... and a later Process -- frame check, root registration, the whole election, the emitted blocks and the
+   next state -- is the same for two instances that differ in the cache only, as long as both caches are
+   coherent with the index ([coh]: every cached answer is the index' answer; for entries left by earlier
+   calls this is the stability of forkless cause under index growth, a consequence of C05, and for entries
+   of dropped speculative events it is vacuous once their ids never recur: C04) *)
+Theorem C07_process_ignores_coherent_cache : forall cap end_block es st c e s',
+  add (l_idx st) (vev (l_vals st) e) = Some s' ->
+  coh (set_idx st s') -> coh (set_idx (set_fcc st c) s') ->
+  let x := process cap end_block es st e in
+  let x' := process cap end_block es (set_fcc st c) e in
+  fst (fst x) = fst (fst x') /\ snd (fst x) = snd (fst x') /\ R (snd x) (snd x').
+Proof. exact process_cache_transparent. Qed.
+
+(* non-vacuity: see C04_hypotheses_satisfiable; the same witness read as a C07 differential run *)
+Example C07_witness : last_obs (run_w sample (w_base ++ w_hist ++ [OpB x123])) = last_obs (run_w sample (w_base ++ [OpB x123])).
+Proof. vm_compute. reflexivity. Qed.
+
+Print Assumptions C07_build_leaves_no_trace.
+Print Assumptions C07_rejected_process_leaves_no_trace.
+Print Assumptions C07_frame_check_ignores_cache.
+Print Assumptions C07_later_builds_unaffected.
+Print Assumptions C07_process_ignores_coherent_cache.
